@@ -5,9 +5,11 @@ Line-protocol driver for the C09 model (`Chunk::optimize`).  Requests:
      | "panic"          the Rust would panic (jump operand beyond the one-past-the-end index)
      | "bad-request"
   imap <tok> …          → "imap <n> <n> …"  (the model's index_map, for diagnosis)
-  pv <f|u> <l|w> <path> <root value | ->
+  pv <f|u> <l|w> <a|n> <path> <root value | ->
                         the fused (f) or unfused (u) load (l) / write (w) of a variable path on the
-                        PathVm model, the root variable bound to the value → "ok <value>" | "err" | "panic"
+                        PathVm model, autoescape on (a) or off (n), the root variable bound to the value
+                        → load: "ok <value>" | "err" | "panic"
+                        → write: "ok E <value>" (written through the escape function) | "ok R <value>" (raw) | "err" | "panic"
 -/
 import TeraModel.Model.Optimize
 import TeraModel.Model.InstrWire
@@ -25,16 +27,26 @@ def valIsUndef : Value → Bool
   | .undef => true
   | _ => false
 
-/-- state: the values written so far -/
-def concreteEnv (ctx : List (String × Value)) : PathVm.Env Value (List Value) where
+/-- `Value::is_safe` (value/mod.rs:696): a safe string; arrays, maps and bytes are not; every
+other kind is -/
+def valIsSafe : Value → Bool
+  | .str safe _ => safe
+  | .arr _ | .map _ | .bytes _ => false
+  | _ => true
+
+/-- state: the values written so far, each with the escape decision -/
+def concreteEnv (autoescape : Bool) (ctx : List (String × Value)) :
+    PathVm.Env Value (List (Bool × Value)) where
   undef := .undef
   isUndef := valIsUndef
   getValue _ n := ((ctx.find? (fun kv => kv.1 == n)).map (·.2)).getD .undef
   dumpContext _ := .map (ctx.map fun kv => (Key.str kv.1.toList, kv.2))
   getAttr := valGetAttr
-  write v s := some (s ++ [v])
+  isSafe := valIsSafe
+  autoescape := autoescape
+  emit esc v s := some (s ++ [(esc, v)])
 
-def showPathRes (kind : String) : Option (PathVm.Res Value (List Value)) → String
+def showPathRes (kind : String) : Option (PathVm.Res Value (List (Bool × Value))) → String
   | some (.ok stack s) =>
     if kind = "l" then
       match stack with
@@ -42,14 +54,14 @@ def showPathRes (kind : String) : Option (PathVm.Res Value (List Value)) → Str
       | [] => "ok-empty-stack"
     else
       match s.getLast? with
-      | some v => "ok " ++ Wire.showValue v
+      | some (esc, v) => "ok " ++ (if esc then "E " else "R ") ++ Wire.showValue v
       | none => "ok-nothing-written"
   | some .err => "err"
   | some (.panic _) => "panic"
   | none => "not-a-path-instruction"
 
-/-- `pv <f|u> <l|w> <path as comma separated hex> <root value | ->` -/
-def handlePv (mode kind pathArg : String) (root : List String) : String :=
+/-- `pv <f|u> <l|w> <a|n> <path as comma separated hex> <root value | ->` -/
+def handlePv (mode kind auto pathArg : String) (root : List String) : String :=
   match pathOfArg pathArg with
   | some (n :: attrs) =>
     let ctx : Option (List (String × Value)) :=
@@ -60,7 +72,7 @@ def handlePv (mode kind pathArg : String) (root : List String) : String :=
     match ctx with
     | none => "bad-request"
     | some ctx =>
-      let env := concreteEnv ctx
+      let env := concreteEnv (auto == "a") ctx
       let sp (i : Nat) : List Span := [s!"s{i}"]
       if mode = "f" then
         let spans := (List.range (attrs.length + 1)).map fun i => s!"s{i}"
@@ -85,7 +97,7 @@ def handle (line : String) : String :=
       match optimize c with
       | .ok r => if r.isEmpty then "ok" else "ok " ++ showChunk r
       | .panic _ => "panic"
-  | "pv" :: mode :: kind :: pathArg :: root => handlePv mode kind pathArg root
+  | "pv" :: mode :: kind :: auto :: pathArg :: root => handlePv mode kind auto pathArg root
   | "imap" :: toks =>
     match parseChunk toks with
     | none => "bad-request"
